@@ -9,8 +9,12 @@ import (
 	"fmt"
 	"os"
 	"path/filepath"
+	"runtime"
 	"sort"
+	"strconv"
 	"strings"
+	"sync"
+	"time"
 )
 
 // Rng is splitmix64; every random choice of a driver derives from one seeded state.
@@ -94,6 +98,11 @@ type Run struct {
 	Distinct map[string]bool // distinct non-trivial cases (driver-defined key)
 	Samples  []string
 	Viol     []Violation
+
+	mu      sync.Mutex // guards the fields below and Close against the watchdog
+	last    time.Time  // time of the last completed op
+	pending string     // op announced with Begin and not completed yet
+	closed  bool
 }
 
 // Violation is a property violation observed on the implementation by a monitor.
@@ -109,8 +118,59 @@ func NewRun(dir string) *Run {
 	must(err)
 	fi, err := os.Create(filepath.Join(dir, "impl.out"))
 	must(err)
-	return &Run{dir: dir, fops: fo, fimpl: fi, ops: bufio.NewWriter(fo), impl: bufio.NewWriter(fi),
-		Counts: map[string]int{}, Distinct: map[string]bool{}}
+	r := &Run{dir: dir, fops: fo, fimpl: fi, ops: bufio.NewWriter(fo), impl: bufio.NewWriter(fi),
+		Counts: map[string]int{}, Distinct: map[string]bool{}, last: time.Now()}
+	go r.watchdog()
+	return r
+}
+
+// watchdog: an implementation that stops making progress (a call that never returns, a lost
+// wake-up the driver waits for) must not hang the check. After VERIF_STUCK_SECS (default 240)
+// without a completed op the run is closed with the violation `harness:stuck_no_progress`; the op
+// announced with Begin (if any) is recorded with the answer "<stuck>", so that the replay contains it.
+func (r *Run) watchdog() {
+	limit := 240 * time.Second
+	if v, err := strconv.Atoi(os.Getenv("VERIF_STUCK_SECS")); err == nil && v > 0 {
+		limit = time.Duration(v) * time.Second
+	}
+	for {
+		time.Sleep(2 * time.Second)
+		r.mu.Lock()
+		if r.closed {
+			r.mu.Unlock()
+			return
+		}
+		if time.Since(r.last) < limit {
+			r.mu.Unlock()
+			continue
+		}
+		buf := make([]byte, 1<<16)
+		n := runtime.Stack(buf, true)
+		dump := strings.ReplaceAll(string(buf[:n]), "\n", " | ")
+		if len(dump) > 3000 {
+			dump = dump[:3000]
+		}
+		descr := fmt.Sprintf("no operation completed for %v after op %d", limit, r.NOps)
+		if r.pending != "" {
+			descr += "; stuck in op: " + r.pending
+		}
+		r.Viol = append(r.Viol, Violation{"harness:stuck_no_progress", r.NOps + 1, descr + "; goroutines: " + dump})
+		if r.pending != "" {
+			r.NOps++
+			fmt.Fprintln(r.ops, r.pending)
+			fmt.Fprintln(r.impl, "<stuck>")
+		}
+		r.mu.Unlock()
+		r.Close()
+		os.Exit(0)
+	}
+}
+
+// Begin announces the op that is about to be executed (optional; used by the watchdog).
+func (r *Run) Begin(op string) {
+	r.mu.Lock()
+	r.pending = op
+	r.mu.Unlock()
 }
 
 // Op records one operation line and the implementation's canonical answer to it.
@@ -118,6 +178,10 @@ func (r *Run) Op(op string, implOut string) {
 	if strings.ContainsAny(op, "\n") || strings.ContainsAny(implOut, "\n") {
 		panic("newline in op/out")
 	}
+	r.mu.Lock()
+	defer r.mu.Unlock()
+	r.last = time.Now()
+	r.pending = ""
 	r.NOps++
 	fmt.Fprintln(r.ops, op)
 	fmt.Fprintln(r.impl, implOut)
@@ -141,6 +205,12 @@ func (r *Run) Enough() bool { return len(r.Viol) >= 200 }
 
 // Close flushes the streams and writes stats.json.
 func (r *Run) Close() {
+	r.mu.Lock()
+	defer r.mu.Unlock()
+	if r.closed {
+		return
+	}
+	r.closed = true
 	must(r.ops.Flush())
 	must(r.impl.Flush())
 	must(r.fops.Close())
